@@ -54,6 +54,50 @@ func main() {
 	case "dump":
 		o.dump = true
 		os.Exit(check(&o))
+	case "replay":
+		// gvc replay <replay-file>: shows the recorded violation and re-runs the part of the check that produced it
+		if fs.NArg() < 1 {
+			fmt.Fprintln(os.Stderr, "usage: gvc replay <file.json>")
+			os.Exit(2)
+		}
+		b, err := os.ReadFile(fs.Arg(0))
+		if err != nil {
+			fmt.Fprintln(os.Stderr, err)
+			os.Exit(2)
+		}
+		var rec map[string]any
+		if err := json.Unmarshal(b, &rec); err != nil {
+			fmt.Fprintln(os.Stderr, err)
+			os.Exit(2)
+		}
+		for _, k := range []string{"property", "obligation", "bounded_stand_in", "clause", "failures", "reason"} {
+			if v, ok := rec[k]; ok && fmt.Sprint(v) != "" {
+				fmt.Printf("%s: %v\n", k, truncate(fmt.Sprint(v), 1500))
+			}
+		}
+		if r, ok := rec["replayed_on_real_code"].(map[string]any); ok {
+			fmt.Printf("failing input (replayed on the real code): %v\n%v\nobserved: %v\n", r["failing_input"], r["failing_input_setup"], r["observed"])
+		}
+		o.property, _ = rec["property"].(string)
+		if name, ok := rec["bounded_stand_in"].(string); ok && name != "" {
+			br := runBounded(&o, name)
+			for _, l := range br.KnownLines {
+				fmt.Println(l)
+			}
+			if !br.OK {
+				fmt.Printf("VIOLATION property=%s replay=%s\n", o.property, br.Replay)
+				os.Exit(1)
+			}
+			fmt.Println("the bounded stand-in passes on the current tree")
+			os.Exit(0)
+		}
+		if ob, ok := rec["obligation"].(string); ok && strings.Contains(ob, "#") {
+			o.oblFilter = ob
+			o.funcFilter = ob[:strings.Index(ob, "#")]
+			o.property = ""
+			os.Exit(check(&o))
+		}
+		os.Exit(check(&o))
 	case "ssa":
 		cs, err := loadContracts(o.repo)
 		if err != nil {
